@@ -10,7 +10,7 @@ from harness.framework import Suite
 PID = "C05"
 LEAN_MODS = ["SwcVerif.Props.C05", "SwcVerif.Props.C05Gen"]
 TRANSLATE_ALGO = ["AlgoSort"]          # Gen/AlgoSort.lean is regenerated from normalizer.py::sort_nodes_impl on every run
-DRIVER_FILES = ["SwcVerif/Model/AlgoRun.lean"]
+DRIVER_FILES = ["SwcVerif/Model/AlgoRunSort.lean"]
 THEOREMS = [
     "C05.machine_eq_pre", "C05.sort_ok", "C05.sort_perm", "C05.sort_sorted", "C05.sort_parent", "C05.sort_root",
     "C05.sort_indices", "C05.edge_is_row", "C05.sort_columns", "C05.sort_again", "C05.isSorted_iff",
